@@ -30,6 +30,8 @@ def alg_key_pairs():
     out = []
     for alg in JWE_ALGS_RFC + JWE_ALGS_1PU:
         kinds = scen.jwe_key_kinds(alg, "A128GCM")
+        if kinds == ["rsa"]:
+            kinds = ["rsa", "rsa2050", "rsa2054"]       # and moduli whose length is not a whole number of octets
         for k in kinds:
             out.append((alg, k))
     return out
@@ -351,6 +353,81 @@ def h_again(ctx):
     return Outcome(f"again:{fam}:{'ok' if not vs else 'bad'}", vs, nontrivial=(alg, kind, enc, tuple(steps)))
 
 
+def h_copies(ctx):
+    """The message object, its recipient key or the key set is a copy (copy.copy / copy.deepcopy / pickle round trip) of what the caller built,
+    the original is gone, and the copy may get a further header member: the round trip holds for the copy as for the original."""
+    import gc
+    from joserfc import jwe
+    from joserfc.jwk import KeySet
+    from .common import handed_over, COPY_FORMS
+    scen.register_drafts()
+    alg, kind0 = ctx.choose("alg/key", SEQ_ALGS)
+    enc = ctx.choose("enc", ["A128CBC-HS256", "A128GCM"] if "1PU+" not in alg else ["A128CBC-HS256"])
+    kind = kind0 if kind0 != "oct" else "oct%d" % ENC[enc][1]
+    form = ctx.choose("serialization", ["flattened", "general"])
+    what_copied = ctx.choose("copied", ["message object", "message object carrying its recipient key", "message object, header member added on the copy",
+                                        "recipient key", "key set"])
+    how = ctx.choose("copy_made_with", COPY_FORMS)
+    jwk = scen.key(kind)
+    is_1pu = "1PU" in alg
+    sender_jwk = scen.key(kind, 1) if is_1pu else None
+    oct_ = jwk["kty"] == "oct"
+    pub = A.jkey({**jwk, "kid": "rcpt"}, "dict", private=oct_)
+    priv = A.jkey({**jwk, "kid": "rcpt"}, "dict")
+    sender_priv = A.jkey(sender_jwk, "dict") if is_1pu else None
+    sender_pub = A.jkey(sender_jwk, "dict", private=False) if is_1pu else None
+    algs = [alg, enc]
+    fam = alg.split("+")[0] if alg.startswith(("ECDH", "PBES2")) else (alg if not alg.endswith("GCMKW") else "GCMKW")
+    pt = b"plaintext handed over as a copy"
+    cls = jwe.FlattenedJSONEncryption if form == "flattened" else jwe.GeneralJSONEncryption
+    obj = cls({"alg": alg, "enc": enc}, pt, {"cty": "shared"}, b"the aad")
+    ekey, dkey = pub, priv
+    extra = None
+    if what_copied == "message object carrying its recipient key":
+        obj.add_recipient({"kid": "rcpt"}, pub)
+        ekey = None
+    else:
+        obj.add_recipient({"kid": "rcpt"})
+    if what_copied.startswith("message object"):
+        cp = handed_over(obj, how)
+        if cp is None:
+            return Outcome("n/a:not-picklable", [], nontrivial=None)
+        del obj
+        gc.collect()
+        obj = cp
+        if what_copied.endswith("added on the copy"):
+            extra = ("x-note", "added on the copy")
+            obj.protected["typ"] = extra[1]
+    elif what_copied == "recipient key":
+        ekey, dkey = handed_over(pub, how), handed_over(priv, how)
+    else:
+        other = A.jkey({**scen.key(kind, 2), "kid": "someone-else"}, "dict")
+        ekey, dkey = handed_over(KeySet([pub, other]), how), handed_over(KeySet([other, priv]), how)
+    if ekey is None and not what_copied.endswith("recipient key") or dkey is None:
+        return Outcome("n/a:not-picklable", [], nontrivial=None)
+    nt = (alg, kind, enc, form, what_copied, how)
+    what = f"alg={alg} key={kind} enc={enc} {form}: {what_copied}, copy made with {how}"
+    r = call(jwe.encrypt_json, obj, ekey, algorithms=algs, sender_key=sender_priv)
+    if not r.ok:
+        return Outcome(f"copies:{fam}:bad", [viol(f"encryption fails for a copy of the caller's object: {fam}", f"{what}: {r.exc!r}")], nontrivial=nt)
+    vs = []
+    tag = f"{fam} {ENC[enc][0]} {form}"
+    d = call(lambda: jwe.decrypt_json(copy.deepcopy(r.value), dkey, algorithms=algs, sender_key=sender_pub))
+    if not d.ok or d.value.plaintext != pt:
+        vs.append(viol(f"a token made from a copy of the caller's object does not decrypt: {tag}", f"{what}: {d.exc!r}"))
+    else:
+        o = d.value
+        if o.aad != b"the aad" or o.unprotected != {"cty": "shared"} or o.protected.get("enc") != enc or (extra and o.protected.get("typ") != extra[1]) \
+                or o.recipients[0].header.get("kid") != "rcpt":
+            vs.append(viol(f"a token made from a copy of the caller's object returns headers in other positions: {tag}", f"{what}: protected={o.protected} unprotected={o.unprotected} recipient={o.recipients[0].header} aad={o.aad!r}"))
+    try:
+        if rjwe.decrypt(r.value, jwk, sender_jwk=rjwk.public_of(sender_jwk) if is_1pu else None, index=0)[0] != pt:
+            vs.append(viol(f"a token made from a copy of the caller's object decrypts to other content (reference): {tag}", what))
+    except RefError as e:
+        vs.append(viol(f"a token made from a copy of the caller's object is not decryptable by the reference: {tag}", f"{what}: {e!r}"))
+    return Outcome(f"copies:{fam}:{'ok' if not vs else 'bad'}", vs, nontrivial=nt)
+
+
 def h_decrypt_sequences(ctx):
     """Round trips that follow one another in a process: a decrypted object edited by its caller, or an earlier token that was refused,
     leaves the next decryption alone (the sequences of C02, judged here for the round-trip clause)."""
@@ -421,5 +498,6 @@ PARTS = [
     _pf,
     Part("def-up-to-the-limit", h_def_limit, split_depth=3),
     Part("decrypt-then-the-caller-edits-then-decrypt", h_decrypt_sequences, split_depth=3),
+    Part("objects-handed-over-as-copies", h_copies, split_depth=2),
     Part("headers-and-objects-used-again", h_again, bound={"quick": 0, "thorough": 1}, split_depth=2),
 ]
